@@ -214,6 +214,17 @@ func (vc *VC) store(st *State, p Val, t types.Type, v Val) {
 		if at.Len() == 0 {
 			return // zero-length marker arrays (protobuf DoNotCompare etc.) hold nothing
 		}
+		et := at.Elem()
+		if _, isS := structOf(et); !isS && kindOf(et) != KArray && len(p.Path) == 0 && v.K == KArray && v.T.S != "" {
+			// copy the whole element storage of the source array value
+			for _, l := range leavesOf(et) {
+				name := "Elem." + typeKey(et) + l.suffix
+				srt := ArrSort(SInt, ArrSort(SInt, l.sort))
+				A := vc.heapGet(st, name, srt)
+				vc.heapSet(st, name, vc.nameTerm(Store(A, p.T, Select(A, v.T)), smtName(name)))
+			}
+			return
+		}
 		vc.unsupported("array value store")
 		return
 	}
